@@ -650,7 +650,7 @@ def check_C13(ctx):
             seen.add(k)
             uniq.append(x)
     rnd = random.Random(ctx.seed)
-    want = 20000 if ctx.thorough else 1500
+    want = 8000 if ctx.thorough else 1500
     if len(uniq) > want:
         uniq = rnd.sample(uniq, want)
         ctx.extra["model_scenarios_sampled"] = want
